@@ -3,40 +3,9 @@
 //!   rvmon shard <Cxx> <tier> <seed> <i> <n> <out.json>   (internal) run one shard
 //!   rvmon replay <replay.json>              re-run the shard that found a violation, verbosely
 
-#![allow(dead_code)]
 
-mod c01;
-mod c02;
-mod c03;
-mod c04;
-mod c05;
-mod c06;
-mod c07;
-mod c08;
-mod c09;
-mod c10;
-mod c11;
-mod c12;
-mod c13;
-mod c14;
-mod c15;
-mod c16;
-mod c17;
-mod c19;
-mod fixture;
-mod core;
-mod evalcommon;
-mod exec;
-mod gen;
-mod instr;
-mod pools;
-mod print;
-mod refeval;
-mod refparse;
-mod rng;
-mod workload;
-
-use crate::core::{Property, Tier};
+use rvmon::core::{self, Property, Tier};
+use rvmon::*;
 
 fn registry() -> Vec<Property> {
     vec![c01::PROP, c02::PROP, c03::PROP, c04::PROP, c05::PROP, c06::PROP, c07::PROP, c08::PROP, c09::PROP, c10::PROP, c11::PROP, c12::PROP, c13::PROP, c14::PROP, c15::PROP, c16::PROP, c17::PROP]
@@ -62,6 +31,9 @@ fn main() {
         }
         "run" => {
             let tier0 = std::env::var("VERIF_TIER").ok().and_then(|t| Tier::parse(&t)).or_else(|| args.get(3).and_then(|t| Tier::parse(t))).unwrap_or(Tier::Quick);
+            if args[2] == "C18" {
+                std::process::exit(c18::drive(tier0));
+            }
             if args[2] == "C19" {
                 std::process::exit(c19::drive(tier0));
             }
